@@ -12,6 +12,15 @@ From SCC Require Export Proof.SimFrag.
 Import ListNotations.
 Open Scope Z_scope.
 Open Scope list_scope.
+(* names that lived in this file before they moved to Proof/SimFrag.v (kept for qualified uses) *)
+Notation lookups_nth := SimFrag.lookups_nth (only parsing).
+Notation bind_nth := SimFrag.bind_nth (only parsing).
+Notation bind_ids := SimFrag.bind_ids (only parsing).
+Notation ctx_int_nth := SimFrag.ctx_int_nth (only parsing).
+Notation sig_match_nth := SimFrag.sig_match_nth (only parsing).
+Notation bind_length := SimFrag.bind_length (only parsing).
+Notation lin_nodup := SimFrag.lin_nodup (only parsing).
+Notation bind_total := SimFrag.bind_total (only parsing).
 
 Notation xvt := (variable_temporary x86_backend Snd).
 Notation xcs := (code_statement x86_backend).
